@@ -12,7 +12,8 @@ Rec == ndJsonDeserialize(IOEnv.TRACE)
 VARIABLE l
 IsD9(c) == c.client = "async" /\ c.backend = "rustls" /\ c.roots = "der" /\ c.cert = "valid" /\ c.ignore # "true"
 TlsOK(e) ==
-  IF Accept(e.cfg)
+  IF Unspecified(e.cfg) THEN e.res \in {"ok", "err"}
+  ELSE IF Accept(e.cfg)
   THEN e.res = "ok" \/ (AcceptD9 /\ IsD9(e.cfg) /\ e.res = "err" /\ e.app_bytes = 0)
   ELSE e.res = "err" /\ e.app_bytes = 0
 Step(e) == e.ev = "tls" /\ e.cfg \in Configs /\ TlsOK(e)
